@@ -11,6 +11,11 @@ warnings.simplefilter("ignore")
 OPS = {"add": operator.add, "sub": operator.sub, "mul": operator.mul, "floordiv": operator.floordiv, "mod": operator.mod,
        "lt": operator.lt, "le": operator.le, "eq": operator.eq, "ne": operator.ne, "gt": operator.gt, "ge": operator.ge}
 LISTS = {1: [1, 2], 2: [5], 0: []}
+DICTS = {0: {"a": 1, "b": 2}, 1: {"a": 1, "c": 5}, 2: {"a": 1}}
+
+
+def _code(m):
+    return sum(m.values()) + (7 if "c" in m else 0)
 
 
 class S(param.Parameterized):
@@ -33,7 +38,8 @@ def key(e):
 class Builder:
     def __init__(self, env):
         self.s = S(v=env["p"])
-        self.inputs = {"a": param.rx(env["a"]), "b": param.rx(env["b"]), "l": param.rx(list(LISTS[env["l"]])), "p": self.s.param.v}
+        self.inputs = {"a": param.rx(env["a"]), "b": param.rx(env["b"]), "l": param.rx(list(LISTS[env["l"]])), "p": self.s.param.v,
+                       "d": param.rx(dict(DICTS[env["d"]]))}
         self.handles = {}
 
     def rxify(self, x):
@@ -82,6 +88,8 @@ class Builder:
         if kd == "isnone":
             x = self.rxify(self.build(e["x"]))
             return x.rx.is_not(None) if e["neg"] else x.rx.is_(None)
+        if kd == "dcode":
+            return self.rxify(self.build(e["x"])).rx.pipe(_code)
         if kd == "map":
             return self.rxify(self.build(e["x"])).rx.map(_g)
         if kd == "count":
@@ -128,7 +136,7 @@ def replay(beh, opts):
     seen = []
     if st0["watched"]:
         top.rx.watch(lambda v: seen.append(v))
-    res = {"status": "ok", "nontrivial": any(s["a"] == "update" for s in steps) and any(s["a"] == "read" for s in steps), "kf": []}
+    res = {"status": "ok", "nontrivial": any(s["a"] == "update" for s in steps) and any(s["a"] in ("read", "derive") for s in steps), "kf": []}
     for i, st in enumerate(steps[1:], 1):
         bad = None
         if st["a"] == "update":
@@ -139,6 +147,8 @@ def replay(beh, opts):
                     bld.s.v = v
                 elif n == "l":
                     bld.inputs["l"].rx.value = list(LISTS[v])
+                elif n == "d":
+                    bld.inputs["d"].rx.value = dict(DICTS[v])
                 else:
                     bld.inputs[n].rx.value = v
             except Exception as e:  # noqa
@@ -156,6 +166,8 @@ def replay(beh, opts):
             h = bld.build(st["sub"])
             if not hasattr(h, "rx"):
                 continue
+            if st["a"] == "derive":
+                h = bld.rxify(h) + 1          # a fresh expression on top of the (possibly already read, since invalidated) handle
             got = read(h)
             want = conv(st["val"])
             ok = (isinstance(got, tuple) and isinstance(want, tuple) and got == want) or (not isinstance(got, tuple) and not isinstance(want, tuple) and same(got, want))
